@@ -49,7 +49,7 @@ def BOUNDS(tier):
 
 def REQUIRED_COVER(tier):
     return {'generic:accept', 'generic:boc', 'generic:nested', 'header:accept', 'account:accept', 'account:extra-currency', 'account:pruned-account', 'mut:expected-hash', 'mut:data-bit',
-            'mut:drop-ref', 'mut:dup-ref', 'mut:swap-ref', 'mut:pruned-hash', 'mut:pruned-depth', 'mut:pruned-level', 'mut:pruned-raw', 'mut:stored-hashes', 'mut:root-type', 'mut:root-hash', 'mut:claimed-pruned', 'mut:claimed-other',
+            'mut:drop-ref', 'mut:dup-ref', 'mut:swap-ref', 'mut:pruned-hash', 'mut:pruned-depth', 'mut:pruned-level', 'mut:pruned-raw', 'mut:stored-hashes', 'mut:root-type', 'mut:root-hash', 'mut:claimed-pruned', 'mut:claimed-partly-pruned', 'mut:claimed-other',
             'mut:claimed-flip', 'mut:address', 'mut:block-id', 'mut:roots', 'mut:state-bit', 'mut:block-bit'}
 
 
@@ -662,6 +662,13 @@ def account_case(rec, ks, extra_mask, keep_account):
         rej('mut:claimed-pruned', 'claimed state is a pruned-branch cell carrying the committed hash', lambda: check_account_proof(boc, bid, addr(target), to_lib(RC.prune(acc, 1), {})))
         rej('mut:claimed-pruned', 'claimed state is a 2-level pruned-branch cell carrying the committed hash',
             lambda: check_account_proof(boc, bid, addr(target), to_lib(RC.pruned_raw(3, [acc.hash(), acc.hash()], [acc.depth(), acc.depth()]), {})))
+        # the real account state with one (every) sub-tree replaced by a pruned branch that carries the right hash and depth: an ORDINARY cell of
+        # level 1 whose level-0 hash is the committed one but whose own hash is not (sixth session, wave 9)
+        for ri in range(len(acc.refs)):
+            partly = RC.RCell(acc.bits, tuple(RC.prune(r, 1) if j == ri else r for j, r in enumerate(acc.refs)))
+            rej('mut:claimed-partly-pruned', f'claimed state is the account cell with its reference {ri} replaced by a pruned branch (level-0 hash as committed)',
+                lambda partly=partly: check_account_proof(boc, bid, addr(target), to_lib(partly, {})))
+            rec.covered('mut:claimed-partly-pruned')
         for oi, other in enumerate(keys):
             if other != target:
                 rej('mut:claimed-other', f'claimed state is account #{oi}', lambda other=other: check_account_proof(boc, bid, addr(target), to_lib(info[other][0], {})))
